@@ -179,6 +179,36 @@ func propC04(r *Run, w *World) {
 			lastDyn := -1
 			seen := map[string]int{}
 			okVals := true
+			// a store with a non-constant key is harmless for a well-known key K when the path
+			// has established key != K before it (the body keys are filtered instead of being
+			// overwritten afterwards): excl[ei][K]
+			excl := map[int]map[string]bool{}
+			lits := map[string]bool{}
+			for ei, e := range p.Events {
+				if e.Kind == EvCond {
+					lits[e.Text] = true
+					continue
+				}
+				if mu, ok := e.Instr.(*ssa.MapUpdate); ok && e.Kind == EvMapUpdate {
+					if _, isC := constString(mu.Key); !isC {
+						kt := Term(mu.Key)
+						excl[ei] = map[string]bool{}
+						for _, k := range []string{"record_type", "@timestamp", "sequence", "raw_msg", "tags", "error"} {
+							if lits[kt+" != \""+k+"\""] {
+								excl[ei][k] = true
+							}
+						}
+					}
+				}
+			}
+			overridable := func(k string, at int) bool {
+				for ei, ex := range excl {
+					if ei > at && !ex[k] {
+						return true
+					}
+				}
+				return false
+			}
 			for ei, e := range p.Events {
 				mu, ok := e.Instr.(*ssa.MapUpdate)
 				if !ok || e.Kind != EvMapUpdate {
@@ -199,12 +229,12 @@ func propC04(r *Run, w *World) {
 			okOrder := true
 			for k := range want {
 				ei, has := seen[k]
-				if !has || ei < lastDyn {
+				if !has || (ei < lastDyn && overridable(k, ei)) {
 					okOrder = false
 				}
 			}
 			for _, k := range []string{"tags", "error"} {
-				if ei, has := seen[k]; has && ei < lastDyn {
+				if ei, has := seen[k]; has && ei < lastDyn && overridable(k, ei) {
 					okOrder = false
 				}
 			}
